@@ -55,7 +55,7 @@ def order(ctx, rule):
     from .C06 import order_sites, DENY
     w = fixture_world()
     res = {key: status for fn, c, key, status, why in order_sites(w, "poscontrol", {})}
-    ctx.check(res.get("poscontrol::hash_order_leak|collect|set") == "violation" and res.get("poscontrol::first_seen|next|map") == "violation", rule,
+    ctx.check(res.get("poscontrol::hash_order_leak|seq|set") == "violation" and res.get("poscontrol::first_seen|seq|map") == "violation", rule,
               f"{rule}:control:order-sensitive", "fixtures/poscontrol/src/lib.rs", bad_msg=f"POSITIVE CONTROL NOT REPORTED: {res}")
     ctx.check(res.get("poscontrol::hash_to_set|collect|set") == "insensitive", rule, f"{rule}:control-guarded:hash_to_set", "fixtures/poscontrol/src/lib.rs",
               bad_msg="collect into a HashSet is not recognised as order-insensitive")
